@@ -185,9 +185,13 @@ func (a *genericAuthenticator) getSubjectInformation(ctx heimdall.Context, authD
 	if a.ttl > 0 {
 		cacheKey = a.calculateCacheKey(ctx, authData)
 		if entry, err := cch.Get(ctx.AppContext(), cacheKey); err == nil {
-			logger.Debug().Msg("Reusing subject information from cache")
+			// the entry may have been stored on behalf of another mechanism, which uses the same
+			// endpoint, but does not care about the lifespan of the session. So it is checked here as well.
+			if a.assertSessionLifespan(entry) == nil {
+				logger.Debug().Msg("Reusing subject information from cache")
 
-			return entry, nil
+				return entry, nil
+			}
 		}
 	}
 
@@ -216,6 +220,23 @@ func (a *genericAuthenticator) getSubjectInformation(ctx heimdall.Context, authD
 	}
 
 	return payload, nil
+}
+
+func (a *genericAuthenticator) assertSessionLifespan(payload []byte) error {
+	if a.sessionLifespanConf == nil {
+		return nil
+	}
+
+	session, err := a.sessionLifespanConf.CreateSessionLifespan(payload)
+	if err != nil {
+		return err
+	}
+
+	if session != nil {
+		return session.Assert()
+	}
+
+	return nil
 }
 
 func (a *genericAuthenticator) fetchSubjectInformation(ctx heimdall.Context, authData string) ([]byte, error) {
